@@ -170,6 +170,7 @@ def r_functions(chk, prog, m):
         w = Walker(prog, f, view="unsigned", contracts={"array_list_expand_internal": _expand_contract()}, buf_fields={"array": "size"})
         R = {k: [0, []] for k in ("C07.R2", "C07.R4", "C07.R5", "C07.R6", "C07.inv")}
         UND = []
+        UND2 = []
 
         def bound(w, st, ptr, n, i, what, read=False):
             R["C07.R2"][0] += 1
@@ -179,6 +180,14 @@ def r_functions(chk, prog, m):
                 return
             limit = cap
             if not (w.entails(st, ptr.off.scale(-1)) and w.entails(st, ptr.off + n - limit)):
+                # a value carried around a loop is known to this walk only through its start and direction; when no branch
+                # condition on the path mentions it, the failed entailment says that the walk lacks the loop's invariant
+                # (e.g. an index that runs in step with a separate countdown), not that an index out of range exists
+                loose = [a for a in (ptr.off.atoms() | n.atoms()) if str(a).startswith("%") and not any(str(a) in str(g) for g in st.prov)]
+                if loose:
+                    UND2.append((i, "%s of %r element(s) at index %r: the index is carried around a loop and no branch condition on the "
+                                    "path bounds it (its relation to the loop's counter is not derived)" % (what, n, ptr.off)))
+                    return
                 R["C07.R2"][1].append((i, "%s of %r element(s) at index %r can exceed the %r allocated elements (path guards %s)"
                                        % (what, n, ptr.off, cap, st.prov)))
 
@@ -263,6 +272,10 @@ def r_functions(chk, prog, m):
                 i, msg = UND[0]
                 chk.undecided(rid, fname, rid, i.locstr(), msg)
                 continue
+            if rid == "C07.R2" and not bad and UND2:
+                i, msg = UND2[0]
+                chk.undecided(rid, fname, rid, i.locstr(), msg)
+                continue
             if bad:
                 i, msg = bad[0]
                 chk.refuted(rid, fname, rid, i.locstr(), msg)
@@ -331,7 +344,8 @@ def r8_sort(chk, prog, m):
     rid = "C07.R8"
     chk.rule(rid, "array_list_sort, evaluated on every list of 0..4 elements over three keys with the comparator answered from the "
                   "keys: it either calls qsort on (the element block, the full length, the element size, the comparator) or returns "
-                  "with the list already in comparator order; array_list_bsearch hands bsearch the same block and full length")
+                  "with the list already in comparator order; array_list_bsearch, evaluated on every sorted such list and the keys 0..4 "
+                  "with bsearch answered from the block it is handed, reports a key as found exactly when the list contains it")
     names = m.struct_fields("%struct.array_list")
     chk.require(names and "array" in names and "length" in names, "layout of struct array_list not found")
     K_ARR, K_LEN = names.index("array"), names.index("length")
@@ -414,28 +428,81 @@ def r8_sort(chk, prog, m):
     g = m.functions.get("array_list_bsearch")
     if g is not None and not g.is_decl:
         chk.touched(g)
-        h = SortPE(prog, max_leaves=20, max_steps=20000)
-        h.keys, h.libcalls, h.unknown = [1, 2, 3], [], False
+
+        class SearchPE(SortPE):
+            """the searched key is an element with key self.kv; bsearch is answered from the keys of the block it is given"""
+            def _keyval(self, a):
+                if a[0] == "ptr" and a[1] == "key" and not [x for x in a[2] if x != ("i", 0)]:
+                    return self.kv
+                k = self._slot(a)
+                return None if k is None else self.keys[k]
+
+            def call_model(self, state, frame, i, args):
+                nm = i.callee
+                if nm == "bsearch":
+                    self.libcalls.append((nm, args))
+                    b0 = self._slot(args[1]) if len(self.keys) else (0 if pe._norm_ptr(args[1]) == pe._norm_ptr(("ptr", "data", ())) else None)
+                    if b0 is None and pe._norm_ptr(args[1]) == pe._norm_ptr(("ptr", "data", ())):
+                        b0 = 0
+                    if b0 is None or not pe.is_const(args[2]) or args[3] != pe.C(8) or self._keyval(args[0]) is None:
+                        self.unknown = True
+                        return None
+                    cnt = args[2][1]
+                    if b0 + cnt > len(self.keys):
+                        self.overrun = True
+                        return None
+                    for k in range(b0, b0 + cnt):
+                        if self.keys[k] == self.kv:
+                            return ("ptr", "hit%d" % k, ())
+                    return pe.C(0)
+                if nm is None and len(args) == 2:
+                    ka, kb = self._keyval(args[0]), self._keyval(args[1])
+                    if ka is None or kb is None:
+                        self.unknown = True
+                        return None
+                    return pe.C((ka > kb) - (ka < kb))
+                return super().call_model(state, frame, i, args)
         bad = und = None
-        try:
-            leaves = h.run(g, [("ptr", "key", ()), ("ptr", "al", ()), ("ptr", "compar", ())], pe.State())
-            bs = [c for c in h.libcalls if c[0] == "bsearch"]
-            if len(bs) != 1:
-                und = "bsearch is called %d times" % len(bs)
-            else:
-                a = bs[0][1]
-                if not (len(a) >= 5 and pe._norm_ptr(a[1]) == pe._norm_ptr(("ptr", "data", ())) and a[2] == pe.C(3) and a[3] == pe.C(8)):
-                    bad = "bsearch is given (base, count, size) = (%s, %s, %s) for a list of 3 elements" % (
-                        a[1][1] if a[1][0] == "ptr" else a[1], a[2][1] if pe.is_const(a[2]) else "?", a[3][1] if pe.is_const(a[3]) else "?")
-        except Exception as e:
-            und = str(e)
-        n += 1
+        for ln in range(0, 5):
+            for keys in product((1, 2, 3), repeat=ln):
+                if list(keys) != sorted(keys):
+                    continue
+                for kv in (0, 1, 2, 3, 4):
+                    h = SearchPE(prog, max_leaves=20, max_steps=20000)
+                    h.loop_widen = 1000
+                    h.max_visits = 64
+                    h.keys, h.libcalls, h.unknown, h.kv, h.overrun = list(keys), [], False, kv, False
+                    try:
+                        leaves = h.run(g, [("ptr", "key", ()), ("ptr", "al", ()), ("ptr", "compar", ())], pe.State())
+                    except Exception as e:
+                        und = und or "%s, key %d: %s" % (list(keys), kv, e)
+                        continue
+                    n += 1
+                    if h.overrun and bad is None:
+                        bad = "for the sorted list of keys %s bsearch is given a block that extends beyond the list" % (list(keys),)
+                        continue
+                    rets = [lf for lf in leaves if lf.kind == "ret"]
+                    if h.unknown or len(rets) != 1 or len(leaves) != 1 or rets[0].value is None:
+                        und = und or "%s, key %d: the evaluation does not end in one concrete return" % (list(keys), kv)
+                        continue
+                    v = rets[0].value
+                    if pe.is_const(v) and v[1] == 0:
+                        got = None
+                    elif v[0] == "ptr" and v[1].startswith("hit"):
+                        got = int(v[1][3:])
+                    else:
+                        und = und or "%s, key %d: the result is neither NULL nor what bsearch returned" % (list(keys), kv)
+                        continue
+                    want = kv in keys
+                    if (got is not None) != want and bad is None:
+                        bad = "in the sorted list of keys %s the key %d is %s, but array_list_bsearch reports it as %s" % (
+                            list(keys), kv, "present" if want else "absent", "found" if got is not None else "not found")
         if bad:
             chk.refuted(rid, g.name, "binary search", g.entry.term.locstr(), bad)
         elif und:
             chk.undecided(rid, g.name, "binary search", g.entry.term.locstr(), und)
         else:
-            chk.proven(rid, g.name, "binary search", g.entry.term.locstr(), "bsearch over the whole list")
+            chk.proven(rid, g.name, "binary search", g.entry.term.locstr(), "found exactly when present, on every sorted list of 0..4 elements over three keys and the keys 0..4")
     chk.floor(rid, n, 60, "lists evaluated")
 
 
